@@ -283,6 +283,9 @@ class Flat(Harness):
                     if n == 0 and op in ("idx_last", "ilist", "assign_idx"):
                         continue
                     out.append(dict(kind=kind, n=n, op=op))
+        # history across arrays: an array built from a literal is edited in place, then the same literal is encoded / compared again
+        # (alphabet encodings only: an ASCII array built from a str literal is a read-only buffer view and refuses assignment)
+        out.append(dict(kind="ACGTnEncoding", n=4, op="literal_history"))
         for pattern in (["ab", "c"], ["a", "", "bc"], ["", "a"], ["abc"]) + ((["a", "b", "c", ""], ["", ""]) if tier == "thorough" else ()):
             for op in ("split", "join", "str_equal"):
                 out.append(dict(kind="ascii", n=sum(len(p) for p in pattern), op=op, pattern=pattern))
@@ -324,6 +327,13 @@ class Flat(Harness):
                 return dict(kind="flat", v=ctx.lst(strops.join(era, ",").raw()))
             other = EncodedRaggedArray(EncodedArray(ctx.arr([x[f"o{i}"] for i in range(n)], "uint8"), enc), [len(p) for p in pat])
             return dict(kind="flat", v=ctx.lst(strops.str_equal(era, other)))
+        if op == "literal_history":
+            from bionumpy.encoded_array import as_encoded_array
+            a = as_encoded_array("ACGT", enc)
+            a[ctx.arr([x[f"m{i}"] for i in range(4)], "int64") == 1] = ch2
+            b = as_encoded_array("ACGT", enc)
+            same = (b == "ACGT")
+            return dict(kind="flat", v=ctx.lst(a.raw()) + ctx.lst(b.raw()) + [bool(v) for v in ctx.lst(same)])
         if op == "idx_last":
             r = e[-1]
             return dict(kind="scalar", v=ctx.lst(r.raw()), src=ctx.lst(src.raw()))
@@ -399,6 +409,12 @@ class Flat(Harness):
         if isinstance(out, Exc):
             return False
         n = skel["n"]
+        if skel["op"] == "literal_history":
+            lit = [letter(skel["kind"], c) for c in "ACGT"]
+            v = out["v"]
+            if len(v) != 12 or v[8:] != [True] * 4:
+                return False
+            return z_and([TI(v[i]) == z3.If(x[f"m{i}"].t == 1, x["ch2"].t, lit[i]) for i in range(4)] + [TI(v[4 + i]) == lit[i] for i in range(4)])
 
         def IDX(s, i):
             t = z3.IntVal(-1)
@@ -432,6 +448,11 @@ class Flat(Harness):
         if isinstance(cout, Exc):
             return f"raised {cout}"
         n = skel["n"]
+        if skel["op"] == "literal_history":
+            lit = [letter(skel["kind"], c) for c in "ACGT"]
+            exp = [cx["ch2"] if cx[f"m{i}"] == 1 else lit[i] for i in range(4)] + lit + [True] * 4
+            return None if cout["v"] == exp else (f"array built from the literal 'ACGT' ({skel['kind']}), positions {[i for i in range(4) if cx[f'm{i}'] == 1]} set to "
+                                                   f"{cx['ch2']}, then the literal encoded and compared again: edited array, fresh array, fresh == 'ACGT' = {cout['v']}, expected {exp}")
         exp = self._model(skel, lambda nm: cx[nm], cout, lambda t, a, b: b if t == a else t, lambda s, i: s[i])
 
         def ev(e):
